@@ -135,3 +135,48 @@ func HarnessC04PersistentFull() {
 	c04Deliver(Config{Persistent: true, OutputChannelBuffer: 1}, 2, 2, 1)
 }
 func HarnessC04ThreeMsgs() { c04Deliver(Config{}, 3, 1, 1) }
+
+// HarnessC04Replace: subscriptions come and go between publishes: A (and optionally B) subscribe, a message is
+// published and consumed, A's context is cancelled and its channel seen closed, C subscribes, a second message is
+// published. "Every subscription that existed when Publish was called" is then B and C: each receives it once.
+// (The consumers are the harness's main goroutine: only the Pub/Sub's own goroutines run concurrently.)
+func HarnessC04Replace() {
+	g := newPubSub(Config{})
+	withB := vrt.Bool("another.subscription.stays")
+	ctxA, cancelA := context.WithCancel(markedCtx("A"))
+	chA, err := g.Subscribe(ctxA, "t")
+	vrt.Assert(err == nil, "subscribe A")
+	var chB <-chan *message.Message
+	if withB {
+		chB, err = g.Subscribe(markedCtx("B"), "t")
+		vrt.Assert(err == nil, "subscribe B")
+	}
+	first, second := newMsg(0), newMsg(1)
+	vrt.Assert(g.Publish("t", first) == nil, "first publish succeeds")
+	m := <-chA
+	vrt.Assert(m.UUID == first.UUID, "A receives the first message")
+	m.Ack()
+	if withB {
+		m = <-chB
+		vrt.Assert(m.UUID == first.UUID, "B receives the first message")
+		m.Ack()
+	}
+	cancelA()
+	_, open := <-chA // A's channel is closed; its removal from the topic may still be on its way
+	vrt.Assert(!open, "the cancelled subscription's channel is closed")
+	chC, err := g.Subscribe(markedCtx("C"), "t")
+	vrt.Assert(err == nil, "subscribe C")
+	vrt.Assert(g.Publish("t", second) == nil, "second publish succeeds")
+	m = <-chC // blocks for ever (reported as a deadlock) if C is not served
+	vrt.Assert(m.UUID == second.UUID, "a subscription made after another one ended receives what is published afterwards")
+	m.Ack()
+	if withB {
+		m = <-chB
+		vrt.Assert(m.UUID == second.UUID, "the subscription that stayed receives the second message too")
+		m.Ack()
+	}
+	vrt.AtQuiescence(func() {
+		vrt.Assert(vrt.ChanLen(chC) == 0 && (!withB || vrt.ChanLen(chB) == 0), "and nothing more")
+	})
+	vrt.Observe("withB", withB)
+}
